@@ -82,6 +82,12 @@ CHECKS = {
         "note": "stack depth = address of a local inside a harness native, heap = live bytes of a counting global allocator in the helper process; verdicts on logical quantities only (watchdog/ OOM = inconclusive); update mode is not claimed by the property",
         "technique": "runtime monitoring: resource-slope monitor (stack address and live-heap probes per iteration) + fixed-stack end-to-end runs",
     },
+    "C19": {
+        "text": "Held on the schedules observed: generated programs (129 families of natives with caches/lazies and core-language constructs + random bounded expressions) compiled once and executed from 2/4/16/64 threads x R repetitions in an Rc build and an Arc (jaq-json/sync) build, every concurrent output stream compared with the isolated one (computed twice; recomputed afterwards in reverse order), values shared between threads compared with their original form, compile-while-running compared with the original compilation; the same helper under ThreadSanitizer (std instrumented, -Zbuild-std) and a tiny workload under Miri with 4 (quick) / 16 (thorough) scheduler seeds; Filter: Send+Sync and Val: Send+Sync (sync) asserted at compile time. Bounded by the schedules the OS and Miri produced; no proof.",
+        "design_ref": "DESIGN.md §4 C19",
+        "note": "trusts TSan's and Miri's memory-model detection and llvm-symbolizer function names for frame classification; sanitizer runs use the sync feature only; the Miri workload uses jaq-core's prelude only; a crash is a violation only if reproducible and absent single-threaded; a detector that could not run is reported as inconclusive",
+        "technique": "runtime monitoring: concurrent-vs-isolated output comparison under schedule perturbation + dynamic race detectors (ThreadSanitizer, Miri)",
+    },
     "C20": {
         "text": "Held on the executions observed: an independent proleptic-Gregorian calendar in the driver (cross-checked against Python datetime at start-up) vs gmtime / mktime / todate / fromdate / strftime / strptime / localtime / strflocaltime of the real interpreter on typed epochs (machine int, big int, double, literal; edge set incl. range limits +-1 s / +-1 us, leap days, century boundaries, negative times, +-2^31, +-2^53, +-2^63, +-2^63/10^6 and neighbours; random; fractional with 1-9 digits), 20 complete strftime formats round-tripped through strptime|mktime, broken-down arrays with edge field values, independently generated RFC 3339 texts with offsets and fractions; out-of-range, non-finite, non-numeric and malformed inputs must be errors; both build profiles (overflow = panic / silent wrap).",
         "design_ref": "DESIGN.md §4 C20",
